@@ -223,9 +223,18 @@ func (k *Keys) ReadKey() (key rune, isAbort bool) {
 
 	case k.waiting:
 		buf := <-k.keysOnce
+		if len(buf) == 0 {
+			return 0, true
+		}
+
 		key = []rune(string(buf))[0]
 	default:
-		buf, _ := k.readInputFiltered()
+		// No key can be read when the input ended or failed: abort.
+		buf, err := k.readInputFiltered()
+		if err != nil || len(buf) == 0 {
+			return 0, true
+		}
+
 		key = []rune(string(buf))[0]
 	}
 
